@@ -51,7 +51,8 @@ def history_cases(draw):
         else:
             steps.append(("elevate", draw(st.sampled_from([1, 1, 2]))))
     cleans = draw(st.lists(st.sampled_from(["knot_clean", "degree_clean", "clean"]), min_size=1, max_size=4))
-    return {"curve": c, "steps": steps, "cleans": cleans, "tol": draw(TOLS)}
+    return {"curve": c, "steps": steps, "cleans": cleans, "tol": draw(TOLS),
+            "nudge": draw(st.sampled_from([None, None, None, F(1, 10 ** 6), F(1, 10 ** 7)]))}
 
 
 def resolve_nodes(sels, U, p):
@@ -202,6 +203,19 @@ def check_history(case, out):
     refined = lib.state_of(curve)
     if oracle.same_function(mini, refined) is not None:
         out.exclude("refinement-changed-function (C04/C06 territory)")
+        return
+    tolk = case.get("tol")
+    if case.get("nudge") and tolk not in (None, "default", "tiny") and (has_ins or has_elev) and len(refined.P) >= 3:
+        # nearly removable: one control point of the refined curve moved by 1e-6 / 1e-7 (removal errors far below
+        # the default 1e-9).  With an explicit tolerance of zero every clean call must then leave the function
+        # exactly as it is - whatever it removes, it may only remove what is exactly removable
+        k = len(refined.P) // 2
+        moved = [tuple(x + (case["nudge"] if i == k and j == 0 else 0) for j, x in enumerate(pt))
+                 for i, pt in enumerate(refined.P)]
+        curve.ctrlpoints = [pt[0] for pt in moved] if refined.scalar else lib.conv_points([list(pt) for pt in moved], "frac")
+        nudged = lib.state_of(curve)
+        out.cls("nearly-removable;tolerance=0")
+        run_cleans(curve, nudged, case["cleans"], out, "history;nearly-removable", None, tolk)
         return
     out.cls("ins" if has_ins else "", "elev" if has_elev else "", "cleans=" + "+".join(case["cleans"]),
             f"pmin={pm}")
